@@ -24,15 +24,31 @@ func sameTime(g builtin.Time, w time.Time) bool {
 // jsDate is an independent reading of the ECMAScript date-time string format
 // (ECMA-262 21.4.1.32): YYYY-MM-DDTHH:mm:ss.sssZ with YYYY or ±YYYYYY and an
 // offset Z or ±HH:mm. It returns the time value in milliseconds.
-var jsDateRE = regexp.MustCompile(`^new Date\("(\d{4}|[+-]\d{6})-(\d{2})-(\d{2})T(\d{2}):(\d{2}):(\d{2})\.(\d{3})(Z|[+-]\d{2}:\d{2})"\)$`)
+var jsDateRE = regexp.MustCompile(`^(\d{4}|[+-]\d{6})-(\d{2})-(\d{2})T(\d{2}):(\d{2})(?::(\d{2})(?:\.(\d{1,9}))?)?(Z|[+-]\d{2}:\d{2})$`)
 
+var jsArgRE = regexp.MustCompile(`^new Date\("([^"\\]*)"\)$`)
+
+// jsDate reads the expression new Date("…").
 func jsDate(expr string) (ms int64, ok bool) {
-	m := jsDateRE.FindStringSubmatch(expr)
+	m := jsArgRE.FindStringSubmatch(expr)
+	if m == nil {
+		return 0, false
+	}
+	return jsDateString(m[1])
+}
+
+// jsDateString reads a date-time string (with a time zone designator).
+func jsDateString(str string) (ms int64, ok bool) {
+	m := jsDateRE.FindStringSubmatch(str)
 	if m == nil || m[1] == "-000000" {
 		return 0, false
 	}
 	n := func(s string) int { v, _ := strconv.Atoi(s); return v }
-	year, mon, day, hh, mm, ss, mil := n(m[1]), n(m[2]), n(m[3]), n(m[4]), n(m[5]), n(m[6]), n(m[7])
+	year, mon, day, hh, mm, ss := n(m[1]), n(m[2]), n(m[3]), n(m[4]), n(m[5]), n(m[6])
+	mil := 0
+	if f := m[7]; f != "" {
+		mil = n((f + "00")[:3]) // milliseconds, further digits are truncated
+	}
 	if mon < 1 || mon > 12 || day < 1 || day > 31 || hh > 24 || mm > 59 || ss > 59 || hh == 24 && (mm != 0 || ss != 0 || mil != 0) {
 		return 0, false
 	}
@@ -48,7 +64,7 @@ func jsDate(expr string) (ms int64, ok bool) {
 		}
 	}
 	t := time.Date(year, time.Month(mon), day, hh, mm, ss, mil*1e6, time.UTC)
-	if t.Day() != day { // e.g. February 30: invalid in ECMAScript
+	if hh < 24 && t.Day() != day { // e.g. February 30: invalid in ECMAScript
 		return 0, false
 	}
 	return t.UnixMilli() - int64(off)*1000, true
@@ -400,7 +416,7 @@ func timeSpaces(thorough bool) []fspace {
 			return ok("rfc3339", true)
 		},
 		desc: func(i uint64) any { return map[string]any{"t": times[i].name} }})
-	out = append(out, timeZoneSpace())
+	out = append(out, timeZoneSpaces(thorough)...)
 	return out
 }
 
@@ -412,6 +428,33 @@ func timeSpaces(thorough bool) []fspace {
 // 9999, >= 10000. JS() and JSON() are read with the Go implementation of the
 // ECMAScript date-time string grammar (jsDate) AND evaluated by /usr/bin/node
 // in one batch; both must give the instant of t.
+
+// nodeDates splits the strings over 8 concurrent node processes.
+func nodeDates(strs []string) []float64 {
+	const parts = 8
+	out := make([]float64, len(strs))
+	var wg sync.WaitGroup
+	errs := make([]any, parts)
+	for k := 0; k < parts; k++ {
+		lo, hi := len(strs)*k/parts, len(strs)*(k+1)/parts
+		if lo == hi {
+			continue
+		}
+		wg.Add(1)
+		go func(k, lo, hi int) {
+			defer wg.Done()
+			defer func() { errs[k] = recover() }()
+			copy(out[lo:hi], nodeDatesChunk(strs[lo:hi]))
+		}(k, lo, hi)
+	}
+	wg.Wait()
+	for _, e := range errs {
+		if e != nil {
+			panic(e)
+		}
+	}
+	return out
+}
 
 var zoneInstants = []struct {
 	name string
@@ -449,8 +492,8 @@ func zoneTime(i uint64) time.Time {
 	return zoneInstants[inst].t.In(time.FixedZone(name, off))
 }
 
-// nodeDates evaluates new Date(s).getTime() for every string with one node process.
-func nodeDates(strs []string) []float64 {
+// nodeDatesChunk evaluates new Date(s).getTime() for every string with one node process.
+func nodeDatesChunk(strs []string) []float64 {
 	const script = `const rl=require('readline').createInterface({input:process.stdin,terminal:false,crlfDelay:Infinity});
 const out=[];rl.on('line',l=>{out.push(String(new Date(l).getTime()));if(out.length>=65536){process.stdout.write(out.join('\n')+'\n');out.length=0}});
 rl.on('close',()=>{if(out.length)process.stdout.write(out.join('\n')+'\n')});`
@@ -479,94 +522,130 @@ rl.on('close',()=>{if(out.length)process.stdout.write(out.join('\n')+'\n')});`
 	return out
 }
 
-var jsArgRE = regexp.MustCompile(`^new Date\("([^"\\]*)"\)$`)
+// nodeChecked reports whether case i is cross-checked with node: in the quick
+// tier every whole-minute offset and every offset within one hour of zero (node
+// needs ~12 µs per date), in the thorough tier every case.
+func nodeChecked(i uint64, thorough bool) bool {
+	_, _, off := zoneCase(i)
+	return thorough || off%60 == 0 || -3600 <= off && off <= 3600
+}
 
-func timeZoneSpace() fspace {
+type zoneOracle struct {
+	once     sync.Once
+	thorough bool
+	js, json map[uint64]float64
+}
+
+func (z *zoneOracle) load() {
 	n := zoneCases()
-	var once sync.Once
-	var nodeJS, nodeJSON []float64
-	load := func() {
-		strs := make([]string, 0, 2*n)
-		for i := uint64(0); i < n; i++ {
-			t := builtin.NewTime(zoneTime(i))
-			js := string(t.JS())
-			if m := jsArgRE.FindStringSubmatch(js); m != nil {
-				js = m[1]
-			} else {
-				js = "not a new Date(\"…\") expression"
-			}
-			var s string
-			if json.Unmarshal([]byte(t.JSON()), &s) != nil || strings.ContainsAny(s, "\n\r") {
-				s = "not a JSON string"
-			}
-			strs = append(strs, js, s)
+	var idx []uint64
+	var strs []string
+	for i := uint64(0); i < n; i++ {
+		if !nodeChecked(i, z.thorough) {
+			continue
 		}
-		r := nodeDates(strs)
-		nodeJS, nodeJSON = make([]float64, n), make([]float64, n)
-		for i := uint64(0); i < n; i++ {
-			nodeJS[i], nodeJSON[i] = r[2*i], r[2*i+1]
+		t := builtin.NewTime(zoneTime(i))
+		js := "not a new Date expression"
+		if m := jsArgRE.FindStringSubmatch(string(t.JS())); m != nil {
+			js = m[1]
 		}
+		var s string
+		if json.Unmarshal([]byte(t.JSON()), &s) != nil || strings.ContainsAny(s, "\n\r") {
+			s = "not a JSON string"
+		}
+		idx = append(idx, i)
+		strs = append(strs, js, s)
 	}
-	return fspace{name: "Time.zones", size: n,
+	r := nodeDates(strs)
+	z.js, z.json = make(map[uint64]float64, len(idx)), make(map[uint64]float64, len(idx))
+	for k, i := range idx {
+		z.js[i], z.json[i] = r[2*k], r[2*k+1]
+	}
+}
+
+// agree panics (harness error) when the Go reading of a date string and node differ.
+func agree(what, str string, ms int64, valid bool, node float64) {
+	if valid != !math.IsNaN(node) || valid && float64(ms) != node {
+		panic(fmt.Sprintf("C25 oracle disagreement on %s %q: Go reading = %d,%v node = %v", what, str, ms, valid, node))
+	}
+}
+
+func timeZoneSpaces(thorough bool) []fspace {
+	n := zoneCases()
+	z := &zoneOracle{thorough: thorough}
+	classes := func(i uint64) (w time.Time, in, offClass, yearClass string) {
+		inst, name, off := zoneCase(i)
+		w = zoneTime(i)
+		in = fmt.Sprintf("t = NewTime(%s in time.FixedZone(%q, %d))", zoneInstants[inst].name, name, off)
+		offClass = "whole-minute-offset"
+		if off%60 != 0 {
+			offClass = "offset-with-seconds"
+		}
+		if name == "UTC" && off != 0 {
+			offClass = "zone-named-UTC-with-an-offset"
+		}
+		yearClass = "year-0..9999"
+		if y := w.Year(); y < 0 || y > 9999 {
+			yearClass = "year-outside-0..9999"
+		}
+		return
+	}
+	desc := func(i uint64) any {
+		inst, name, off := zoneCase(i)
+		return map[string]any{"instant": zoneInstants[inst].name, "zone_name": name, "zone_offset_seconds": off}
+	}
+	jsSpace := fspace{name: "Time.JS.zones", size: n, desc: desc,
 		eval: func(i uint64) res {
-			once.Do(load)
-			inst, name, off := zoneCase(i)
-			w := zoneTime(i)
+			w, in, offClass, yearClass := classes(i)
 			t := builtin.NewTime(w)
-			in := fmt.Sprintf("t = NewTime(%s in time.FixedZone(%q, %d))", zoneInstants[inst].name, name, off)
-			offClass := "whole-minute-offset"
-			if off%60 != 0 {
-				offClass = "offset-with-seconds"
-			}
-			if name == "UTC" && off != 0 {
-				offClass = "zone-named-UTC-with-an-offset"
-			}
-			yearClass := "year-0..9999"
-			if y := w.Year(); y < 0 || y > 9999 {
-				yearClass = "year-outside-0..9999"
-			}
 			// std wrappers
 			if g, p := try(func() [3]string { return [3]string{t.String(), t.Format(time.RFC3339Nano), t.Format(time.RFC1123Z)} }); p {
 				return unexpectedPanic(func() { _ = t.String(); t.Format(time.RFC3339Nano) }, in)
 			} else if g != [3]string{w.String(), w.Format(time.RFC3339Nano), w.Format(time.RFC1123Z)} {
-				return bad("String/Format|differs-from-time.Time", "input %s\nobserved %q", in, g)
+				return bad("String/Format-differs-from-time.Time", "input %s\nobserved %q", in, g)
 			}
-			// JS
 			js, p := try(func() string { return string(t.JS()) })
 			if p {
 				return unexpectedPanic(func() { t.JS() }, in+".JS()")
 			}
 			want := w.UnixMilli()
 			ms, valid := jsDate(js)
-			nodeMS := nodeJS[i]
-			if valid != !math.IsNaN(nodeMS) || valid && float64(ms) != nodeMS {
-				panic(fmt.Sprintf("C25 oracle disagreement on %s: jsDate = %d,%v node = %v", js, ms, valid, nodeMS))
+			if nodeChecked(i, thorough) {
+				z.once.Do(z.load)
+				agree("JS()", js, ms, valid, z.js[i])
 			}
 			if !valid {
-				return bad("JS|not-a-valid-new-Date-argument|"+yearClass, "input %s.JS()\nobserved %s (node: Invalid Date)", in, js)
+				return bad("not-a-valid-new-Date-argument|"+yearClass, "input %s.JS()\nobserved %s (Invalid Date)", in, js)
 			}
 			if ms != want {
-				return bad("JS|JavaScript-date-is-another-instant|"+offClass, "input %s.JS() (Unix ms %d)\nobserved %s which node evaluates to Unix ms %d (differs by %d ms)", in, want, js, ms, ms-want)
+				return bad("JavaScript-date-is-another-instant|"+offClass, "input %s.JS() (Unix ms %d)\nobserved %s which JavaScript evaluates to Unix ms %d (differs by %d ms)", in, want, js, ms, ms-want)
 			}
-			// JSON
+			return ok(offClass+","+yearClass, true)
+		}}
+	jsonSpace := fspace{name: "Time.JSON.zones", size: n, desc: desc,
+		eval: func(i uint64) res {
+			w, in, offClass, yearClass := classes(i)
+			t := builtin.NewTime(w)
 			j, p := try(func() string { return string(t.JSON()) })
 			if p {
 				return unexpectedPanic(func() { t.JSON() }, in+".JSON()")
 			}
 			var s string
 			if err := json.Unmarshal([]byte(j), &s); err != nil {
-				return bad("JSON|not-a-JSON-string", "input %s.JSON()\nobserved %s", in, j)
+				return bad("not-a-JSON-string", "input %s.JSON()\nobserved %s", in, j)
 			}
-			if math.IsNaN(nodeJSON[i]) {
-				return bad("JSON|string-is-not-a-date-JavaScript-can-parse|"+yearClass, "input %s.JSON()\nobserved %s: new Date(%s) is Invalid Date in node (JS() of the same value is %s)", in, j, j, js)
+			ms, valid := jsDateString(s)
+			if nodeChecked(i, thorough) {
+				z.once.Do(z.load)
+				agree("JSON()", s, ms, valid, z.json[i])
 			}
-			if got := int64(nodeJSON[i]); got != w.Unix()*1000 {
-				return bad("JSON|string-denotes-another-instant|"+offClass, "input %s.JSON() (Unix s %d)\nobserved %s which node evaluates to Unix ms %d (differs by %d s)", in, w.Unix(), j, got, got/1000-w.Unix())
+			if !valid {
+				return bad("string-is-not-a-date-JavaScript-can-parse|"+yearClass, "input %s.JSON()\nobserved %s: new Date(%s) is Invalid Date (JS() of the same value is %s)", in, j, j, t.JS())
+			}
+			if ms != w.Unix()*1000 {
+				return bad("string-denotes-another-instant|"+offClass, "input %s.JSON() (Unix s %d)\nobserved %s which JavaScript evaluates to Unix ms %d (differs by %d s)", in, w.Unix(), j, ms, ms/1000-w.Unix())
 			}
 			return ok(offClass+","+yearClass, true)
-		},
-		desc: func(i uint64) any {
-			inst, name, off := zoneCase(i)
-			return map[string]any{"instant": zoneInstants[inst].name, "zone_name": name, "zone_offset_seconds": off}
 		}}
+	return []fspace{jsSpace, jsonSpace}
 }
